@@ -2758,7 +2758,7 @@ func (d *decoderSimpleBytes) structFieldNotFound(index int, rvkencname string) {
 	if d.h.ErrorIfNoField {
 		if index >= 0 {
 			halt.errorInt("no matching struct field found when decoding stream array at index ", int64(index))
-		} else if rvkencname != "" {
+		} else {
 			halt.errorStr2("no matching struct field found when decoding stream map with key ", rvkencname)
 		}
 	}
@@ -6536,7 +6536,7 @@ func (d *decoderSimpleIO) structFieldNotFound(index int, rvkencname string) {
 	if d.h.ErrorIfNoField {
 		if index >= 0 {
 			halt.errorInt("no matching struct field found when decoding stream array at index ", int64(index))
-		} else if rvkencname != "" {
+		} else {
 			halt.errorStr2("no matching struct field found when decoding stream map with key ", rvkencname)
 		}
 	}
